@@ -1,6 +1,29 @@
-(** C14 - placeholder until the nonce-source theorems land. *)
-From Coq Require Import List NArith.
-From BP Require Import Model.Nonce.
-Theorem C14_r_s_always_from_rng : forall seeded T rounds, source_of seeded T rounds SR = FromRng (1 + rounds) 0 /\ source_of seeded T rounds SS = FromRng (1 + rounds) 1.
-Proof. intros; split; reflexivity. Qed.
-Print Assumptions C14_r_s_always_from_rng.
+(** C14 — prover randomness is hedged.  STROBE KEY/PRF as a PRF of its key is TRUSTED; proved: what the
+    key contains. *)
+From Coq Require Import List Arith NArith Bool.
+From BP Require Import Model.Codec Model.Transcript Model.Nonce Proofs.NonceP.
+Import ListNotations.
+
+(** every transcript-RNG instance the prover builds (after the statement, after A, after each (L, R),
+    after (A1, B)) is re-keyed with the serialised witness, whatever the external RNG returns *)
+Theorem C14_rng_always_keyed_with_witness : forall s seeded p w l,
+  prover_ops s seeded p w = Some l -> Forall (rng_keyed w) l.
+Proof. exact prover_rng_always_keyed. Qed.
+Print Assumptions C14_rng_always_keyed_with_witness.
+
+(** for a given shape the key bytes determine every value and every blinding factor: two witnesses
+    for the same commitments still give different keys *)
+Theorem C14_witness_bytes_injective : forall T (vs vs' : list N) (bs bs' : list (list N)),
+  length vs = length bs -> length vs' = length bs' -> length vs = length vs' ->
+  Forall (fun v => (v < 2 ^ 64)%N) vs -> Forall (fun v => (v < 2 ^ 64)%N) vs' ->
+  Forall (fun r => length r = T /\ Forall (fun x => (x < 2 ^ 256)%N) r) bs ->
+  Forall (fun r => length r = T /\ Forall (fun x => (x < 2 ^ 256)%N) r) bs' ->
+  witness_bytes vs bs = witness_bytes vs' bs' -> vs = vs' /\ bs = bs'.
+Proof. exact witness_bytes_injective. Qed.
+Print Assumptions C14_witness_bytes_injective.
+
+(** the two final masking scalars come from the RNG also when a seed is present *)
+Theorem C14_final_masks_from_rng : forall seeded T rounds,
+  source_of seeded T rounds SR = FromRng (1 + rounds) 0 /\ source_of seeded T rounds SS = FromRng (1 + rounds) 1.
+Proof. exact final_masks_from_rng. Qed.
+Print Assumptions C14_final_masks_from_rng.
